@@ -317,6 +317,22 @@ class Case:
             fi = min(i, n - i)
             self.rel('C15d:route:fsfs.mean', float(coal.fsfs.mean.data[fi]), float(coal.moment(1, (R.FoldedSFSReward(fi),))),
                      route='Coalescent.moment(1,(FoldedSFSReward(i),))', bin=fi)
+            # the same routes on an SFS distribution whose OWN reward is not the unit reward: the per-deme spectra
+            names = list(coal.lineage_config.pop_names)
+            if len(names) >= 2:
+                p = names[(i + j) % len(names)]
+                for nm, dist, mk, bi, bj in (('sfs', coal.sfs.demes[p], R.UnfoldedSFSReward, i, j),
+                                             ('fsfs', coal.fsfs.demes[p], R.FoldedSFSReward, fi, min(j, n - j))):
+                    dc, dv, dr = np.array(dist.cov.data, dtype=float), np.array(dist.var.data, dtype=float), np.array(dist.corr.data, dtype=float)
+                    self.cmp(f'C15d:route:{nm}.demes.cov', float(dc[bi, bj]), float(dist.get_cov(bi, bj)), 1e-9 * s2,
+                             route=f'{nm}.demes[p].get_cov(i,j) vs .cov[i,j]', bins=[bi, bj], deme=p)
+                    self.cmp(f'C15d:route:{nm}.demes.cov', float(dc[bi, bj]),
+                             float(coal.moment(2, (R.ProductReward([R.DemeReward(p), mk(bi)]), R.ProductReward([R.DemeReward(p), mk(bj)])))),
+                             1e-9 * s2, route='Coalescent.moment(2,(Deme(p)*SFS_i, Deme(p)*SFS_j))', bins=[bi, bj], deme=p)
+                    self.cmp(f'C15d:route:{nm}.demes.var-vs-cov-diagonal', float(dv[bi]), float(dist.get_cov(bi, bi)), 1e-9 * s2, bin=bi, deme=p)
+                    if dv[bi] > 1e-9 * s2 and dv[bj] > 1e-9 * s2:
+                        self.cmp(f'C15d:route:{nm}.demes.corr', float(dr[bi, bj]), float(dist.get_corr(bi, bj)), 1e-7,
+                                 route=f'{nm}.demes[p].get_corr(i,j) vs .corr[i,j]', bins=[bi, bj], deme=p)
 
     # (e) --------------------------------------------------------------------------------------------
     def matrices(self):
